@@ -18,7 +18,10 @@ from ..common import DataSet, random_canon_tree, build_tree, forest_clades, KERN
 
 ID = "C07"
 LEVEL = "proof"
-THEOREMS = ["wf_init", "wf_createRootNode", "wf_createAdd", "wf_addDataPointToNode", "wf_removeDataPointFromNode", "wf_removeDataPointFromOutliers", "wf_getSubtree", "wf_removeSubtree", "wf_addSubtree", "wf_relabelNodes", "wf_update", "wf_fromDict_toDict", "wf_touch", "wf_step", "wf_reachable", "dense_step", "data_conserved", "subtree_is_clade", "labels_partition", "abs_eq_labels", "subtree_move_conserves", "dp_move_conserves"]
+THEOREMS = ["wf_init", "wf_createRootNode", "wf_createAdd", "wf_addDataPointToNode", "wf_removeDataPointFromNode", "wf_removeDataPointFromOutliers", "wf_getSubtree", "wf_removeSubtree", "wf_addSubtree", "wf_relabelNodes", "wf_update", "wf_fromDict_toDict", "wf_touch", "wf_step", "wf_reachable", "dense_step", "data_conserved", "subtree_is_clade", "labels_partition", "abs_eq_labels", "subtree_move_conserves", "dp_move_conserves",
+            "forest_init", "forest_createRootNode", "forest_getSubtree", "forest_removeSubtree", "forest_addSubtree", "forest_fromDict",
+            "forest_step", "forest_reachable", "forest_ops_total", "forest_parent_unique_acyclic", "isForestB_iff", "graph_of_forest", "graph_createRootNode",
+            "graph_store_createRootNode", "graph_removeSub", "graph_getSubtree", "graph_addSubtree", "graph_fromDict", "graph_step"]
 BUDGET = {"quick": 100, "thorough": 900}
 SEARCH_BUDGET = 60
 EXPLANATION = (
@@ -29,7 +32,17 @@ EXPLANATION = (
     "tree; remove_subtree gets a subtree of the same tree; a graft brings no data the tree already holds) - one theorem "
     "per operation, wf_step, wf_reachable for every legal history; data_conserved per operation, subtree_is_clade, "
     "subtree_move_conserves / dp_move_conserves for the composed moves, labels_partition, abs_eq_labels.  Graph shape "
-    "(one parent, reachability) is structural in the model, so it is decided on the real graph by the oracle.  This run: "
+    "(each clone has exactly one parent and is reachable from the virtual root) is structural in the store model and is proved "
+    "for the primitive-level digraph model Model/Graph.lean (live indices + edge list; every Tree method as the sequence of "
+    "rustworkx calls tree.py makes, the indices rustworkx hands out as parameters): IsForest holds for Tree(grid_size) and is "
+    "preserved by create_root_node, get_subtree, remove_subtree, add_subtree, from_dict, copy (forest_* per operation, forest_step, "
+    "forest_reachable for every history; hence unique parent and no cycle), isForestB decides it, and for every shape-changing "
+    "structural operation of the store model (takeRoots/cons, findSub/reindex, removeSub, append/graftAt, buildSF) the graph-level "
+    "operation applied to graphOf f with the indices the structural operation chose yields the live set and edge multiset of "
+    "graphOf of the structural result (graph_*); graph_step: every Store.step on well-formed stores is simulated by legal "
+    "graph-level operations on the graphs of the stores.  This run: after every op of every history the graph-level op with the real "
+    "rustworkx indices injected gives exactly the live set and edge multiset of the real graph and isForestB agrees with the "
+    "shape oracle; "
     "model and real Tree agree after every op of every generated history; the direct oracle (one parent, reachable, single "
     "visit, maps mutually inverse and covering the graph, payload name = mapped name, _data keys = clone names, payload "
     "set = _data list, every data point in one place, resulting tree = what the edit should give, untouched handles "
@@ -43,10 +56,16 @@ RULE = (
     "chain the samplers as the run loop does (subtree or PG, data-point, prune-regraft, relabel_nodes) for 1-3 sweeps.  "
     "Non-trivial: history as for C06; sampler case with >= 2 clones or an outlier in the input tree.")
 TRUSTED = [
-    "rustworkx graph mutation is modelled, not verified: the harness reads the real graph back after every op",
+    "rustworkx primitives (add_node, add_edge, remove_edge, remove_nodes_from, remove_node_retain_edges, subgraph, compose, "
+    "extend_from_edge_list, descendants) are modelled one by one in Model/Graph.lean, index allocation left open (parameters); "
+    "the harness replays every history on that model with the real indices and compares node and edge sets after every op",
     "numpy.random.Generator (real seeded generators are used for the sampler invocations: sampled, not enumerated)",
 ]
-ASSUMPTIONS = ["sampler invocations are sampled (seeds), not exhaustive: exhaustive transition rows are compared in C01 / C04"]
+ASSUMPTIONS = ["sampler invocations are sampled (seeds), not exhaustive: exhaustive transition rows are compared in C01 / C04",
+               "graph model: the payload scan of get_subtree is taken to find the image of _node_indices[subtree_root] (names are unique: WF); "
+               "the index of the grafted tree's root copy, removed again inside add_subtree, cannot be observed (any unused index is injected); "
+               "the renamings injected for get_subtree / add_subtree are reconstructed from payloads and shape (isomorphic subtrees are "
+               "interchangeable: every such pairing gives the same edge set)"]
 WANT = {"C07"}
 SAMPLERS = ["burnin", "pg", "subtree", "dp", "prg", "iteration", "retained"]
 
